@@ -180,39 +180,6 @@ func enumRefs(s *Schema, full string) int {
 	return n
 }
 
-func deleteEnumValueOp(name string, resNum, resName bool) *Op {
-	return &Op{Name: name, Kind: Breaking, KindOf: enumSiteKind, Sites: func(s *Schema) []Site {
-		var out []Site
-		for _, el := range s.EnumsAll() {
-			for i, v := range el.E.Values {
-				if i > 0 && el.E.countNum(v.Num) == 1 && !s.usedAsDefault(el.Full, v.Name) {
-					out = append(out, Site{File: el.F.Name, Enum: el.Full, Name: v.Name})
-				}
-			}
-		}
-		return out
-	}, Apply: func(s *Schema, site Site, r *hx.Rand) ([]Expect, bool) {
-		el := s.EnumByName(site.Enum)
-		v, i := el.E.Value(site.Name)
-		if v == nil {
-			return nil, false
-		}
-		el.E.Values = append(el.E.Values[:i:i], el.E.Values[i+1:]...)
-		exp := []Expect{eEnum("ENUM_VALUE_NO_DELETE", el, "")}
-		if resNum {
-			el.E.Reserved = append(el.E.Reserved, Range{Lo: v.Num, Hi: v.Num})
-		} else {
-			exp = append(exp, eEnum("ENUM_VALUE_NO_DELETE_UNLESS_NUMBER_RESERVED", el, ""))
-		}
-		if resName {
-			el.E.ReservedNames = append(el.E.ReservedNames, v.Name)
-		} else {
-			exp = append(exp, eEnum("ENUM_VALUE_NO_DELETE_UNLESS_NAME_RESERVED", el, ""))
-		}
-		return exp, true
-	}}
-}
-
 func methodOp(name string, pred func(s *Schema, f *File, m *Method) bool, apply func(s *Schema, f *File, svcFull string, m *Method, r *hx.Rand) ([]Expect, bool)) *Op {
 	return &Op{Name: name, Kind: Breaking, Sites: func(s *Schema) []Site {
 		var out []Site
@@ -754,10 +721,6 @@ func init() {
 			_, _, enums, _ := s.pkgCounts(el.F.Package)
 			return enums == 1 && enumRefs(s, el.Full) == 0
 		}, func(s *Schema, el *EnumLoc, r *hx.Rand) ([]Expect, bool) { return deleteEnum(s, el), true }),
-		deleteEnumValueOp("DeleteEnumValue", false, false),
-		deleteEnumValueOp("DeleteEnumValueReserveNumber", true, false),
-		deleteEnumValueOp("DeleteEnumValueReserveName", false, true),
-		deleteEnumValueOp("DeleteEnumValueReserveBoth", true, true),
 		{Name: "EnumValueRename", Kind: Breaking, KindOf: enumSiteKind, Sites: func(s *Schema) []Site {
 			var out []Site
 			for _, el := range s.EnumsAll() {
@@ -780,36 +743,7 @@ func init() {
 		// ENUM_VALUE_SAME_NAME demands that every PREVIOUS name of a number still exists
 		// (slicesext.ElementsContained(names, previousNames)): removing one of several names of
 		// a number is reported at the number of every remaining name; adding a name is not.
-		{Name: "EnumRemoveAlias", Kind: Breaking, KindOf: enumSiteKind, Sites: func(s *Schema) []Site {
-			var out []Site
-			for _, el := range s.EnumsAll() {
-				for i, v := range el.E.Values {
-					if i > 0 && el.E.countNum(v.Num) > 1 && !s.usedAsDefault(el.Full, v.Name) {
-						out = append(out, Site{File: el.F.Name, Enum: el.Full, Name: v.Name})
-					}
-				}
-			}
-			return out
-		}, Apply: func(s *Schema, site Site, r *hx.Rand) ([]Expect, bool) {
-			el := s.EnumByName(site.Enum)
-			gone, i := el.E.Value(site.Name)
-			if i < 0 {
-				return nil, false
-			}
-			el.E.Values = append(el.E.Values[:i:i], el.E.Values[i+1:]...)
-			alias := false
-			var exp []Expect
-			for _, v := range el.E.Values {
-				if el.E.countNum(v.Num) > 1 {
-					alias = true
-				}
-				if v.Num == gone.Num {
-					exp = append(exp, Expect{Rule: "ENUM_VALUE_SAME_NAME", File: el.F.Name, Locator: "enumval:" + el.Full + "#" + v.Name + ":number"})
-				}
-			}
-			el.E.AllowAlias = alias
-			return exp, true
-		}},
+		// The deletion / alias operators are the ALIAS family of breaking3.go (AliasOps).
 		enumSubOp("DeleteEnumReservedRange", func(el *EnumLoc) []Site { return rangeSites(el.E.Reserved, false) },
 			func(s *Schema, el *EnumLoc, site Site, r *hx.Rand) ([]Expect, bool) {
 				i := rangeIndex(el.E.Reserved, site.Num)
@@ -986,7 +920,25 @@ func init() {
 		}},
 
 		// ---- files
-		{Name: "DeleteFile", Kind: Breaking, Sites: func(s *Schema) []Site {
+		// kind: does the package survive in another file (then every message / enum / service of the
+		// deleted file is a PACKAGE_*_NO_DELETE annotation WITHOUT file and location) or does it go
+		// with its last file (PACKAGE_NO_DELETE)
+		{Name: "DeleteFile", Kind: Breaking, KindOf: func(s *Schema, site Site) string {
+			f := s.File(site.File)
+			if f == nil {
+				return "-"
+			}
+			k := "package-gone"
+			for _, g := range s.Files {
+				if g != f && g.Package == f.Package {
+					k = "package-survives"
+				}
+			}
+			if len(f.Messages)+len(f.Enums)+len(f.Services) == 0 {
+				k += "/empty-file"
+			}
+			return k
+		}, Sites: func(s *Schema) []Site {
 			if len(s.Files) < 2 {
 				return nil
 			}
@@ -1243,16 +1195,33 @@ func init() {
 		}, Apply: func(s *Schema, site Site, r *hx.Rand) ([]Expect, bool) {
 			f := s.File(site.File)
 			f.SetFeature("json_format", "LEGACY_BEST_EFFORT")
+			// features are inherited lexically (file -> message -> nested message / enum): an
+			// element inherits the file default only when neither it nor an enclosing message
+			// sets json_format
+			explicit := map[string]bool{}
+			for _, ml := range fileMsgs(s, f) {
+				if ml.M.JSONFormat != "" {
+					explicit[ml.Full] = true
+				}
+			}
+			shielded := func(full string) bool {
+				for i := len(full) - 1; i > 0; i-- {
+					if full[i] == '.' && explicit[full[:i]] {
+						return true
+					}
+				}
+				return false
+			}
 			var exp []Expect
 			for _, ml := range fileMsgs(s, f) {
 				ml := ml
-				if ml.M.JSONFormat == "" {
+				if ml.M.JSONFormat == "" && !shielded(ml.Full) {
 					exp = append(exp, eMsg("MESSAGE_SAME_JSON_FORMAT", &ml, ""))
 				}
 			}
 			for _, el := range s.EnumsAll() {
 				el := el
-				if el.F == f && el.E.JSONFormat == "" {
+				if el.F == f && el.E.JSONFormat == "" && !shielded(el.Full) {
 					exp = append(exp, inheritedEnumExpect("ENUM_SAME_JSON_FORMAT", &el))
 				}
 			}
@@ -1290,7 +1259,7 @@ func init() {
 			return []Expect{eFile("FIELD_SAME_JAVA_UTF8_VALIDATION", f, "opt27")}, true
 		}},
 	}
-	BreakingOps = append(append([]*Op(nil), BreakingFieldOps...), rest...)
+	BreakingOps = append(append(append([]*Op(nil), BreakingFieldOps...), rest...), AliasOps...)
 }
 
 // freeExtRanges: indexes of extension ranges of ml that no extension uses.
